@@ -705,10 +705,12 @@ int main(int argc, char** argv) {
   auto opt = vx::ParseOptions(argc, argv);
   int random_count = 12;
   bool stop_on_deadlock = true;
+  std::string header_extra;
   for (int i = 1; i < argc; ++i) {
     std::string a = argv[i];
     if (a == "--random-scenarios" && i + 1 < argc) random_count = std::atoi(argv[++i]);
     if (a == "--no-early-stop") stop_on_deadlock = false;
+    if (a == "--fixed") header_extra = " fixed=1";  // the library under test has the proposed repairs applied
   }
   vx::Explorer ex(opt);
   {
@@ -770,7 +772,7 @@ int main(int argc, char** argv) {
         ++ex.stats.distinct;
         ex.stats.trace_lines += ctx.trace.size();
         if (ex.out) {
-          std::fprintf(ex.out, "run %s\n", header.c_str());
+          std::fprintf(ex.out, "run %s%s\n", header.c_str(), header_extra.c_str());
           for (auto& l : ctx.trace) std::fprintf(ex.out, "%s\n", l.c_str());
           std::fprintf(ex.out, "end\n");
         }
